@@ -7,12 +7,12 @@ EX = "exploration"
 CHECKS = {
  "C01": dict(cat=MC, engine="E1",
    technique="explicit-state exploration of the real canister (exhaustive DFS over block-arrival histories with transaction bodies, duplicate detection on the complete logical state) with a brute-force ledger replay as oracle",
-   text="Every state reachable by <= n blocks (n=4 quick, 5 thorough) over a menu of 8 transaction bodies (<= 2-3 non-default per history), all tree shapes and arrival orders, thresholds 1-3, three networks: every book address (P2PKH, P2SH, P2WPKH, P2WSH, P2TR, a colliding P2WPKH/P2WSH prefix pair) is queried with all pages followed (page sizes 1000 and 1/2) and compared, as a set with values and heights, with the ledger replayed from genesis to the named tip. Plus the real 1000-per-page limit on 999..2001 outputs, a tall-chain family (stable + unstable stretch of hundreds of blocks), and a part with sliced ingestion and one upgrade at any boundary (states in the middle of an ingestion, before and after an upgrade).",
+   text="Every state reachable by <= n blocks (n=4 quick, 5 thorough) over a menu of 8 transaction bodies (<= 2-3 non-default per history), all tree shapes and arrival orders, thresholds 1-3, three networks: every book address (P2PKH, P2SH, P2WPKH, P2WSH, P2TR, a colliding P2WPKH/P2WSH prefix pair) is queried with all pages followed (page sizes 1000 and 1/2) and compared, as a set with values and heights, with the ledger replayed from genesis to the named tip. Plus the real 1000-per-page limit on 999..2001 outputs, a tall-chain family (stable + unstable stretch of hundreds of blocks), and a part with sliced ingestion and one upgrade at any boundary (states in the middle of an ingestion, before and after an upgrade). Bech32 addresses are also queried in upper case.",
    note="domain: transaction-valid blocks; address<->script mapping and hashing shared with rust-bitcoin; order inside one height not compared",
    ref="DESIGN.md §6 C01"),
  "C02": dict(cat=MC, engine="E1",
    technique="explicit-state exploration of the real canister: exhaustive DFS over block-arrival histories (all tree shapes x arrival orders x difficulty assignments x thresholds) with a brute-force reference chain selection as oracle in every state",
-   text="Every state reachable by <= n block deliveries (n=5-6 quick, 6-7 thorough; difficulty sets {1,2,3}, {1,2,5}, {1,4}; thresholds 1-3; regtest through full validation, mainnet/testnet through push) is visited on the real code and get_blockchain_info / unfiltered get_utxos / get_balance / get_block_headers are compared with the heaviest chain recomputed by brute force (all leaf paths, (sum difficulty, length), arrival tie-break). A fee-carrying part (lazy and eager fee mode, forks with different fees, reorgs) compares get_current_fee_percentiles with the reference percentiles of the heaviest chain; a tall family grows a long light branch (hundreds of blocks) next to a short heavy one and judges the served tip after every arrival. Bounded exhaustive: nothing is claimed beyond the bound.",
+   text="Every state reachable by <= n block deliveries (n=5-6 quick, 6-7 thorough; difficulty sets {1,2,3}, {1,2,5}, {1,4}; thresholds 1-3; regtest through full validation, mainnet/testnet through push) is visited on the real code and get_blockchain_info / unfiltered get_utxos / get_balance / get_block_headers are compared with the heaviest chain recomputed by brute force (all leaf paths, (sum difficulty, length), arrival tie-break). A fee-carrying part (lazy and eager fee mode, forks with different fees, reorgs) compares get_current_fee_percentiles with the reference percentiles of the heaviest chain; a tall family grows a long light branch (hundreds of blocks) next to a short heavy one and judges the served tip after every arrival; a LEDGER part judges the content of the unfiltered answer with the ledger oracle. Bounded exhaustive: nothing is claimed beyond the bound.",
    note="rust-bitcoin hashing/serialisation shared with the implementation; mock difficulty via feature mock_difficulty; ingestion unsliced in this check (sliced states belong to C07/C08)",
    ref="DESIGN.md §6 C02"),
  "C03": dict(cat=MC, engine="E1",
@@ -30,11 +30,11 @@ CHECKS = {
    note="differential: needs no reference value", ref="DESIGN.md §6 C05"),
  "C07": dict(cat=MC, engine="E1",
    technique="explicit-state exploration of the real canister with sliced ingestion and upgrades; all (start,end) pairs per state against the reference chain; long-chain boundary family",
-   text="TREE histories with ingestion budgets 1/2/unlimited (every pause point of the explored shapes) and upgrades; in every state all (start, end) up to tip+2 are compared header by header with the reference chain, errors with the documented ones; a 130/230-block family probes the 100-header cap and the stable boundary with and without a paused ingestion.",
+   text="TREE histories with ingestion budgets 1/2/unlimited (every pause point of the explored shapes) and upgrades; in every state all (start, end) up to tip+2 are compared header by header with the reference chain, errors with the documented ones; a 130/230/330-block family probes the 100-header cap and the stable boundary with and without a paused ingestion, also with more than 100 unstable blocks.",
    note="where two documented errors apply either is accepted", ref="DESIGN.md §6 C07"),
  "C08": dict(cat=MC, engine="E2",
    technique="exhaustive enumeration of all budget schedules (compositions of the slicing call sites) of a stabilising block, driven through the real heartbeat; state-equality across schedules and probe-equality against the pre-ingestion answers",
-   text="For 7 block shapes (spends of stable outputs, same-block spend, non-address scripts, many addresses, several blocks per round, fork discarded by the advance) all 2^(m-1) sequences of per-round budgets (m <= 14 quick, 18 thorough) are run through heartbeat() with a source that always offers a further block: no fetch while ingesting, every pause position reaches one identical state whatever the schedule, all probe answers at pauses equal those before that block's ingestion began, the final state equals the unsliced run, at most m rounds. Plus an upgrade at every pause position (answers unchanged by it, ingestion completes, final answers equal the unsliced run) and set_config(syncing = disabled) at every pause position (ingestion still completes, without fetching).",
+   text="For 7 block shapes (spends of stable outputs, same-block spend, non-address scripts, many addresses, several blocks per round, fork discarded by the advance) all 2^(m-1) sequences of per-round budgets (m <= 14 quick, 18 thorough) are run through heartbeat() with a source that always offers a further block: no fetch while ingesting, every pause position reaches one identical state whatever the schedule, all probe answers at pauses equal those before that block's ingestion began, the final state equals the unsliced run, at most m rounds. Plus an upgrade at every pause position (answers unchanged by it, ingestion completes, final answers equal the unsliced run) and set_config(syncing = disabled) at every pause position (ingestion still completes, without fetching), and two rounds with budget 0 at every pause position (no fetch, no processing, state unchanged).",
    note="budgets are counted in slicing call sites; statistics masked in fingerprints", ref="DESIGN.md §6 C08"),
  "C06": dict(cat=MC, engine="E2",
    technique="explicit-state exploration of pager/environment interleavings on the real canister (all placements of <= k environment events between page requests), plus exhaustive page-blob and real-limit families",
@@ -42,11 +42,11 @@ CHECKS = {
    note="page size 1/2 through hook H3", ref="DESIGN.md §6 C06"),
  "C09": dict(cat=MC, engine="E1",
    technique="explicit-state exploration with an upgrade at every message boundary (incl. paused ingestion and, via the schedule explorer of C13, every fetch-protocol phase); complete probe set and complete logical state compared across the upgrade; differential continuation against the run without the upgrade",
-   text="One upgrade (no argument / empty / new threshold / lazy fees) at every boundary of LEDGER histories with sliced ingestion: all probe answers and the complete logical state (syncing flags, per-block metrics, overridden config masked) must be identical before/after; for up to k further events the answers must equal those of the run where the upgrade is replaced by its plain set_config. Fee-carrying histories with an upgrade at any boundary are judged against the upgrade-oblivious fee reference of C15 (the fee endpoint mutates a cache and is not part of the side-effect-free probe set). A part with every configuration field away from its default (syncing disabled, api access disabled, lazy fees, sync gate, non-default fees, watchdog and burn settings) checks that the whole configuration survives. Fetch-protocol phases (request parked, partial pages stored, complete response stored) are covered by the C13 exploration, which applies the same probe comparison at every Upgrade event.",
+   text="One upgrade (no argument / empty / new threshold / lazy fees) at every boundary of LEDGER histories with sliced ingestion: all probe answers and the complete logical state (syncing flags, per-block metrics, overridden config masked) must be identical before/after; for up to k further events the answers must equal those of the run where the upgrade is replaced by its plain set_config. Fee-carrying histories with an upgrade at any boundary are judged against the upgrade-oblivious fee reference of C15 (the fee endpoint mutates a cache and is not part of the side-effect-free probe set). A part with every configuration field away from its default (syncing disabled, api access disabled, lazy fees, sync gate, non-default fees, watchdog and burn settings) checks that the whole configuration survives; an all-zero fee table on mainnet / testnet likewise. Fetch-protocol phases (request parked, partial pages stored, complete response stored) are covered by the C13 exploration, which applies the same probe comparison at every Upgrade event.",
    note="native vector memory stands in for stable memory", ref="DESIGN.md §6 C09"),
  "C10": dict(cat=MC, engine="E1",
    technique="explicit-state exploration of base tree states x exhaustive enumeration of get_successors replies (items x announced headers) fed through the real heartbeat; atomicity by state comparison with the prefix-only reply",
-   text="In every TREE state (<= 3-4 blocks, with and without pending announced headers) every reply of <= 2-3 items over 27 item kinds (incl. valid boundary timestamps, the block of an announced header, a block whose parent is only an announced header, a re-mined twin of a tree block) and every announced-header list of <= 2-3 entries over 10 kinds (incl. a header on top of a retained announced header, live or left over from a discarded fork): admitted blocks = longest admissible prefix, exactly one error counter +1 on a reject, complete state equal to the state after the prefix-only reply, heartbeat never traps, retained headers sound and complete; direct-call and heartbeat channels give equal states.",
+   text="In every TREE state (<= 3-4 blocks, with and without pending announced headers, also reached through sliced ingestion) every reply of <= 2-3 items over 27 item kinds (incl. valid boundary timestamps, the block of an announced header, a block whose parent is only an announced header, a re-mined twin of a tree block) and every announced-header list of <= 2-3 entries over 10 kinds (incl. a header on top of a retained announced header, live or left over from a discarded fork): admitted blocks = longest admissible prefix, exactly one error counter +1 on a reject, complete state equal to the state after the prefix-only reply, heartbeat never traps, retained headers sound and complete; direct-call and heartbeat channels give equal states.",
    note="regtest (mined) blocks only", ref="DESIGN.md §6 C10"),
  "C11": dict(cat=EX, engine="E3",
    technique="bounded-exhaustive enumeration of header-chain configurations against an independent re-implementation of Core's difficulty and timestamp rules",
@@ -62,15 +62,15 @@ CHECKS = {
    note="source honours its protocol; upgrades leak outstanding heartbeats as the IC does", ref="DESIGN.md §6 C13"),
  "C14": dict(cat=MC, engine="E1",
    technique="explicit-state exploration of tree histories with announced-header events x flag combinations; every endpoint x requested network called in every state",
-   text="TREE histories with chains of 1-4 announced headers on any live block (overtaken by arrivals, left on discarded forks, reached by the stable height) x the 4 flag combinations: 7 data endpoints x 3 networks must refuse iff access off, network mismatch, or (sync flag and highest connected announced header > best + 2; send_transaction exempt); exempt endpoints always answer. A mixed-difficulty part separates 'heaviest chain' from 'longest branch'. A schedule part (C13's explorer, sync flag on) lets the headers arrive the way they do in production - in complete and paginated get_successors replies, under rejects, upgrades and interleaved heartbeats - and judges the gate in every state. In every state every validated announced header whose block has not arrived, above the stable height and attached to the tree, must still be pending.",
+   text="TREE histories with chains of 1-4 announced headers on any live block (overtaken by arrivals, left on discarded forks, reached by the stable height) x the 4 flag combinations: 7 data endpoints x 3 networks must refuse iff access off, network mismatch, or (sync flag and highest connected announced header > best + 2; send_transaction exempt); exempt endpoints always answer. A mixed-difficulty part separates 'heaviest chain' from 'longest branch'. A schedule part (C13's explorer, sync flag on) lets the headers arrive the way they do in production - in complete and paginated get_successors replies, under rejects, upgrades and interleaved heartbeats - and judges the gate in every state, also when the flag is switched on in the middle of a history. In every state every validated announced header whose block has not arrived, above the stable height and attached to the tree, must still be pending.",
    note="headers of discarded forks are 'either' (C20 lets them be dropped)", ref="DESIGN.md §6 C14"),
  "C15": dict(cat=MC, engine="E1",
    technique="explicit-state exploration of fee-carrying histories through the real heartbeat against a stateful reference of the caching rule; exhaustive enumeration of the percentile routine; window boundary family",
-   text="Histories of <= 4-5 blocks with four fee bodies on any live block (forks with different fees, reorgs), replies with an undecodable item behind the block, upgrades, eager and lazy mode with query events: every answer equals nearest-rank percentiles of the reference fee rates of the chain observed at the last observation point. Percentile routine on n in [1,400] U {9999,10000,10001} x 5 patterns; 10,000-transaction window family.",
+   text="Histories of <= 4-5 blocks with five fee bodies (incl. a transaction whose outputs exceed its inputs) on any live block (forks with different fees, reorgs), replies with an undecodable item behind the block, upgrades, eager and lazy mode with query events: every answer equals nearest-rank percentiles of the reference fee rates of the chain observed at the last observation point. Percentile routine on n in [1,400] U {9999,10000,10001} x 5 patterns; 10,000-transaction window family.",
    note="inside the cut block both readings accepted", ref="DESIGN.md §6 C15"),
  "C16": dict(cat=EX, engine="E3",
    technique="bounded-exhaustive enumeration of fee tables x instruction counts x requests x available cycles through the real endpoints with controllable cycle and instruction mocks",
-   text="3 default tables + a product of synthetic tables x 8 instruction-counter values x every endpoint (success and each request-level error) x available cycles around the maximum: accepted cycles equal the formula, queries free, underfunded calls refused before any charge; client cost functions cover the default maxima.",
+   text="3 default tables + a product of synthetic tables x 8 instruction-counter values x every endpoint (success and each request-level error) x available cycles around the maximum: accepted cycles equal the formula, queries free, underfunded calls refused before any charge; client cost functions cover the default maxima for both spellings of every network.",
    note="native cycle mock; maximum >= base", ref="DESIGN.md §6 C16"),
  "C17": dict(cat=MC, engine="E3",
    technique="exhaustive enumeration of explorer-result multisets x orders x canister heights through the real decision function, and of all two-round fetch histories through the real fetch/store/health path with mocked HTTP",
@@ -82,11 +82,11 @@ CHECKS = {
    note="documents rendered from the harness's AST", ref="DESIGN.md §6 C18"),
  "C19": dict(cat=EX, engine="E3",
    technique="bounded-exhaustive enumeration of payload mutations against an independent strict transaction parser and exact round trip",
-   text="12 base transactions + 29 with field values at the edges of their types (amount pairs over {0,1,2^63,max-1,max}, 253 inputs/outputs) x every truncation, 1-byte extension, bit flip, marker/flag edge case x access flag x networks through the real async endpoint: success, counting and unchanged forwarding iff well-formed and permitted; repeated on a canister that is behind its announced headers (send_transaction is exempt from the sync gate), and on a canister initialised with a non-default blocks source (destination of the forwarded call).",
+   text="12 base transactions + 32 with field values at the edges of their types (incl. the null previous output) (amount pairs over {0,1,2^63,max-1,max}, 253 inputs/outputs) x every truncation, 1-byte extension, bit flip, marker/flag edge case x access flag x networks through the real async endpoint: success, counting and unchanged forwarding iff well-formed and permitted; repeated on a canister that is behind its announced headers (send_transaction is exempt from the sync gate), and on a canister initialised with a non-default blocks source (destination of the forwarded call).",
    note="payloads where the two references disagree are undecided", ref="DESIGN.md §6 C19"),
  "C20": dict(cat=MC, engine="E1",
    technique="explicit-state exploration with a structural oracle over the serialised unstable-block bookkeeping and the block cache in every state",
-   text="LEDGER/TREE histories with discards at different depths, shared transactions, cross-fork spends, upgrades, sliced ingestion: tree order, block cache keys and bytes, per-block address deltas, tx-out cache reference counts and contents, cached tip depths and announced-header maps equal what the blocks below the anchor require, recomputed from block bodies; all queries and fee computations succeed.",
+   text="LEDGER/TREE histories with discards at different depths, shared transactions, cross-fork spends, upgrades, sliced ingestion, competing announced headers whose blocks arrive in any order: tree order, block cache keys and bytes, per-block address deltas, tx-out cache reference counts and contents, cached tip depths and announced-header maps equal what the blocks below the anchor require, recomputed from block bodies; all queries and fee computations succeed.",
    note="announced headers exercised in C14 with the same structural checks", ref="DESIGN.md §6 C20"),
 }
 ALL = ["C%02d" % i for i in range(1, 21)]
